@@ -348,8 +348,16 @@ class SymBuilder(BuilderBase):
     return self.st.alloc("dict", dict, dict((hashkey(k_), (k_, v)) for k_, v in d.items()))
 
   def set_of(self, items):
-    from .models import hashkey
-    return self.st.alloc("set", set, dict((hashkey(v), v) for v in items))
+    """a set of the given elements; symbolic int elements are ASSUMED pairwise distinct (and distinct from the
+    concrete ones): a set never holds the same value twice"""
+    from .models import symkey, is_sym
+    items = list(items)
+    for i, x in enumerate(items):
+      if is_sym(x):
+        for y in items[:i] + items[i + 1:]:
+          if is_sym(y) or isinstance(y, int):
+            self.st.add(x != y)
+    return self.st.alloc("set", set, dict((symkey(v), v) for v in items))
 
   # ---- model extraction
   def extract(self, model):
